@@ -56,9 +56,17 @@ def gen_history(rng, tier):
     k = rng.randint(3, 12) if tier == "quick" else rng.randint(3, 30)
     steps = []
     nlists = 1
+    alive = [0]
     for _ in range(k):
-        r = rng.randrange(nlists)
+        r = rng.choice(alive)
         c = rng.random()
+        if c < 0.07 and len(alive) >= 3:
+            # the program drops its reference to an intermediate list (`c = a.filter(...).sort(...)` keeps no name for the
+            # filtered list): the lists derived from it are still successors of its predecessors
+            victim = rng.choice(alive[1:-1])
+            alive.remove(victim)
+            steps.append({"k": "forget", "m": "del", "r": victim})
+            continue
         if c < 0.40:
             st = {"k": "derive", "m": rng.choice(DERIVE), "r": r, "arg": rng.randint(0, 3)}
         elif c < 0.62:
@@ -77,6 +85,7 @@ def gen_history(rng, tier):
             st = {"k": "poke", "m": rng.choice(["top", "nested"]), "r": r, "pos": rng.randint(0, 2)}
         steps.append(st)
         if st["k"] not in ("use", "poke", "probe"):
+            alive.append(nlists)
             nlists += 1
     return {"op": "history", "n0": n0, "steps": steps}
 
@@ -158,9 +167,27 @@ def impl(case):
     import dataiter as di
     tg = lodgen.Tagger()
     base = di.ListOfDicts([{"a": i % 3, "meta": {"n": i}} for i in range(case["n0"])])
-    lists = [base]
+    import gc
+    import weakref
+    lists = [base]          # strong references the "program" holds; None once it has dropped one
+    refs = [weakref.ref(base)]
+    shadow = {}             # last observation of a list that can no longer be reached
     for it in base:
         tg.tag(it)
+
+    def reach(i):
+        return lists[i] if lists[i] is not None else refs[i]()
+
+    def observe_lists():
+        obsolete, items, pred = [], [], []
+        for i in range(len(lists)):
+            l = reach(i)
+            if l is not None:
+                p = l._predecessor
+                shadow[i] = (bool(l._obsolete), [tg.tags[id(it)] for it in l],
+                             None if p is None else next((j for j in range(len(refs)) if reach(j) is p), -1))
+            obsolete.append(shadow[i][0]); items.append(shadow[i][1]); pred.append(shadow[i][2])
+        return obsolete, items, pred
     other_proto = [{"a": 0, "q": "r0"}, {"a": 1, "q": "r1"}, {"a": 0, "q": "r0b"}]
     recs = []
 
@@ -170,14 +197,19 @@ def impl(case):
         r = st["r"]
         lod = lists[r]
         before = snap()
-        obs_before = [bool(l._obsolete) for l in lists]
+        obs_before = observe_lists()[0]
         other = di.ListOfDicts([dict(d) for d in other_proto])
         other_before = [dict(x) for x in other]
         buf = io.StringIO()
         rec = {"obs_before": obs_before}
         try:
             with redirect_stdout(buf):
-                if st["k"] == "use":
+                if st["k"] == "forget":
+                    new = None
+                    lod = None
+                    lists[r] = None
+                    gc.collect()
+                elif st["k"] == "use":
                     lod.pluck("a")
                     new = None
                 elif st["k"] == "probe":
@@ -208,6 +240,7 @@ def impl(case):
         if new is not None:
             known_before = set(tg.tags.values())
             lists.append(new)
+            refs.append(weakref.ref(new))
             items = [tg.tag(it) for it in new]
             rec["new_items"] = items
             rec["fresh"] = [t for t in items if t not in known_before]
@@ -216,9 +249,7 @@ def impl(case):
             rec["new_obsolete"] = bool(new._obsolete)
         after = snap()
         rec["changed"] = sorted(t for t in before if before[t] != after.get(t))
-        rec["obsolete"] = [bool(l._obsolete) for l in lists]
-        rec["items"] = [[tg.tags[id(it)] for it in l] for l in lists]
-        rec["pred"] = [None if l._predecessor is None else next((i for i, x in enumerate(lists) if x is l._predecessor), -1) for l in lists]
+        rec["obsolete"], rec["items"], rec["pred"] = observe_lists()
         recs.append(rec)
     return {"recs": recs}
 
@@ -229,7 +260,9 @@ def model_ops(case, obs):
         if "err" in rec:
             break
         k = st["k"]
-        if k in ("use", "probe"):
+        if k == "forget":
+            ops.append({"k": "poke", "r": st["r"], "pos": 10 ** 6})      # nothing happens to any list or dict
+        elif k in ("use", "probe"):
             ops.append({"k": "use", "r": st["r"]})
         elif k == "poke":
             ops.append({"k": "poke", "r": st["r"], "pos": st["pos"] if rec.get("poked") else 10 ** 6})
@@ -268,7 +301,7 @@ def judge(ctx, case, obs, mouts):
             ctx.violation("oracle", f"{st['m']}:raises", f"{st['m']} raised: {rec['err']}", sub, rec)
             break
         # -- warn exactly once, on the first use after becoming obsolete
-        uses_r = k != "poke"
+        uses_r = k not in ("poke", "forget")
         exp_warn = 1 if (uses_r and rec["obs_before"][r] and r not in warned) else 0
         if uses_r and rec["obs_before"][r]:
             warned.add(r)
@@ -277,7 +310,7 @@ def judge(ctx, case, obs, mouts):
         if rec["warnings"] != exp_warn:
             ctx.violation("oracle", "warn-once", f"step printed {rec['warnings']} warnings, expected {exp_warn} (list {r} obsolete={rec['obs_before'][r]}, warned before={r in warned and exp_warn == 0})", sub, rec)
         # -- isolation: which dict objects may change
-        if k in ("derive", "use", "deepcopy", "fresh", "probe"):
+        if k in ("derive", "use", "deepcopy", "fresh", "probe", "forget"):
             if rec["changed"]:
                 ctx.violation("oracle", f"{st['m']}:modifies-items", f"non-modifying call {st['m']} changed dict objects {rec['changed']}", sub, rec)
         if k == "edit":
@@ -357,7 +390,7 @@ def judge(ctx, case, obs, mouts):
                     break
                 sub = {"op": "history", "n0": case["n0"], "steps": steps[:idx + 1]}
                 st = steps[idx]
-                keep_known = rec.get("keep") is not None or st["k"] in ("use", "poke", "probe", "deepcopy", "fresh")
+                keep_known = rec.get("keep") is not None or st["k"] in ("use", "poke", "probe", "forget", "deepcopy", "fresh")
                 if (1 if mo["warn"] else 0) != rec["warnings"]:
                     ctx.violation("correspondence", "warn:differs", "model and implementation disagree on the warning", sub, rec, mo)
                     break
